@@ -12,7 +12,7 @@ from .env import VERIF, seed_from_env
 from .pool import Pool, run_fresh
 
 EVIDENCE_DIR = os.path.join(VERIF, "evidence")
-REPLAY_DIR = os.path.join(VERIF, "replays")
+REPLAY_DIR = os.path.join(VERIF, "replays") if not os.environ.get("MC_REPO_SRC") else "/tmp/mc_debug_replays"
 SCHEMA = "/root/.vp/EVIDENCE.schema.json"
 SCHEMA_COPY = os.path.join(VERIF, "mc", "EVIDENCE.schema.json")
 
@@ -41,9 +41,11 @@ def _validate(evidence):
 
 
 def write_evidence(pid, evidence):
-    os.makedirs(EVIDENCE_DIR, exist_ok=True)
     _validate(evidence)
-    path = os.path.join(EVIDENCE_DIR, f"{pid}.json")
+    # a debugging run against a scratch copy of the repository (MC_REPO_SRC) must not overwrite the real evidence
+    d = EVIDENCE_DIR if not os.environ.get("MC_REPO_SRC") else os.path.join("/tmp", "mc_debug_evidence")
+    os.makedirs(d, exist_ok=True)
+    path = os.path.join(d, f"{pid}.json")
     tmp = path + ".tmp"
     with open(tmp, "w") as f:
         json.dump(evidence, f, indent=1, sort_keys=True, default=str)
